@@ -148,6 +148,50 @@ def check_passthrough(model, rep):
         raise AnalysisError(f'only {n} take/takediag/inflate rules found')
 
 
+# binary swap rules that merge two nodes of one class keep only self's control operand: the guard must equate it with other's
+CONTROL = {('Inflate', '_add'): ['dofmap'], ('Choose', '_multiply'): ['index'], ('LoopSum', '_add'): ['index']}
+
+
+def check_binary_guards(model, rep):
+    from sa.guards import paths_to
+    for (cname, rule), fields in CONTROL.items():
+        c = model.cls(f'evaluable:{cname}')
+        mem = c.members.get(rule)
+        if mem is None or mem.func is None:
+            raise AnalysisError(f'{cname}.{rule} not found')
+        f = mem.func
+        ps = paths_to(f.node, lambda s: isinstance(s, ast.Return) and s.value is not None and src(s.value) != 'None')
+        if not ps:
+            raise AnalysisError(f'{cname}.{rule}: no rewriting return found')
+        for fld in fields:
+            bad = [p for p, idx, facts in ps if facts.get(f'self.{fld} == other.{fld}') is not True and facts.get(f'other.{fld} == self.{fld}') is not True
+                   and facts.get(f'self.{fld} is other.{fld}') is not True]
+            cls_ok = all(facts.get(f'isinstance(other, {cname})') is True for _, _, facts in ps)
+            ok = not bad and cls_ok
+            rep.ob('R01.5', f.key, f.where(), ok, f'two {cname} nodes are merged only when their {fld} operands are equal' if ok else
+                   f'{cname}.{rule} merges `other` into a node that keeps self.{fld} without requiring self.{fld} == other.{fld}: for operands that merely have the same shape the values of other are re-interpreted under the wrong {fld}',
+                   statement=f'control {fld}')
+    # capture avoidance: a foreign operand may move into a loop body only if it does not depend on that loop's index
+    L = model.cls('evaluable:Loop')
+    n = 0
+    for c in model.subclasses(L, strict=True):
+        for rule in ('_multiply', '_add'):
+            mem = c.members.get(rule)
+            if mem is None or mem.func is None:
+                continue
+            f = mem.func
+            ps = paths_to(f.node, lambda s: isinstance(s, ast.Return) and s.value is not None and 'other' in {x.id for x in ast.walk(s.value) if isinstance(x, ast.Name)})
+            for p, idx, facts in ps:
+                n += 1
+                ok = facts.get('self.index not in other.arguments') is True or facts.get('self.index in other.arguments') is False or \
+                    facts.get('other.index == self.index') is True or facts.get('self.index == other.index') is True
+                rep.ob('R01.5', f.key, f.where(), ok, 'the foreign operand enters the loop body only if it is independent of this loop\'s index (or is a loop over the same index)' if ok else
+                       f'{c.name}.{rule} moves `other` inside the loop body without the guard `self.index not in other.arguments`: an operand that depends on an outer loop with the same index is captured by the inner loop',
+                       statement='loop-capture')
+    if n < 2:
+        raise AnalysisError('loop swap rules with a foreign operand not found')
+
+
 def check_driver(model, rep):
     E = model.cls('evaluable:Evaluable')
     s = E.members.get('simplified')
@@ -207,9 +251,11 @@ def run(model, rep, tier):
     rep.rule('R01.1', 'arity agreement of protocol declarations, overrides and call sites')
     rep.rule('R01.2', 'swap rules do not hand their own axis parameters to user-facing helpers')
     rep.rule('R01.4', 'fixed-point driver: assertion, None convention, loop detection, memoisation')
+    rep.rule('R01.5', 'binary swap rules: control operands equated, no loop-index capture')
     check_arity(model, rep)
     check_passthrough(model, rep)
     check_driver(model, rep)
+    check_binary_guards(model, rep)
     advisory_priority(model, rep)
     rep.require('R01.1', 250)
     rep.require('R01.2', 40)
